@@ -104,6 +104,9 @@ func (in *Interp) binop(op token.Token, t types.Type, x, y value) value {
 			panic("bool binop " + op.String())
 		}
 		signed := isSigned(t)
+		if r := in.durationCompare(op, xv, yv); r != nil {
+			return r
+		}
 		switch op {
 		case token.ADD:
 			return c.BVAdd(xv, yv)
@@ -684,3 +687,65 @@ func (in *Interp) strLen(t *smt.Term) value {
 }
 
 func bigPow2(n uint) *big.Int { return new(big.Int).Lsh(big.NewInt(1), n) }
+
+// durationCompare: a time.Duration produced by Time.Sub / time.Since / time.Until is
+// seconds * 1e9 (the clock has one-second resolution) and Go saturates instead of wrapping,
+// so comparing it with a constant or with another such duration is a comparison of the
+// second counts. Without this the solver has to reason about a 64-bit multiplication by 10^9.
+func (in *Interp) durationCompare(op token.Token, x, y *smt.Term) *smt.Term {
+	c := in.C
+	const ns = int64(1_000_000_000)
+	sx, okx := in.secDur[x]
+	sy, oky := in.secDur[y]
+	if !okx && !oky {
+		return nil
+	}
+	floorDiv := func(k int64) int64 {
+		q := k / ns
+		if k%ns != 0 && k < 0 {
+			q--
+		}
+		return q
+	}
+	ceilDiv := func(k int64) int64 {
+		q := k / ns
+		if k%ns != 0 && k > 0 {
+			q++
+		}
+		return q
+	}
+	cmp := func(op token.Token, a, b *smt.Term) *smt.Term {
+		switch op {
+		case token.LSS:
+			return c.BVSLt(a, b)
+		case token.LEQ:
+			return c.BVSLe(a, b)
+		case token.GTR:
+			return c.BVSLt(b, a)
+		case token.GEQ:
+			return c.BVSLe(b, a)
+		}
+		return nil
+	}
+	switch {
+	case okx && oky:
+		return cmp(op, sx, sy)
+	case okx && y.IsConst():
+		k := y.I64()
+		switch op {
+		case token.LEQ, token.GTR: // d <= k  <=>  s <= floor(k/1e9);  d > k <=> s > floor(k/1e9)
+			return cmp(op, sx, c.BVConstI(floorDiv(k), 64))
+		case token.LSS, token.GEQ: // d < k <=> s < ceil(k/1e9);  d >= k <=> s >= ceil(k/1e9)
+			return cmp(op, sx, c.BVConstI(ceilDiv(k), 64))
+		}
+	case oky && x.IsConst():
+		k := x.I64()
+		switch op {
+		case token.LEQ, token.GTR: // k <= d <=> ceil(k/1e9) <= s;  k > d <=> ceil(k/1e9) > s
+			return cmp(op, c.BVConstI(ceilDiv(k), 64), sy)
+		case token.LSS, token.GEQ: // k < d <=> floor(k/1e9) < s;  k >= d <=> floor(k/1e9) >= s
+			return cmp(op, c.BVConstI(floorDiv(k), 64), sy)
+		}
+	}
+	return nil
+}
